@@ -1,17 +1,23 @@
 package clusterhash
 
 import (
+	"bytes"
 	"context"
 	"encoding/hex"
 	"encoding/json"
 	"fmt"
 	"os"
 	"path/filepath"
+	"sort"
+	"strings"
 	"testing"
 	"time"
 
+	"github.com/obolnetwork/charon/cluster"
 	"github.com/obolnetwork/charon/cmd/combine"
 	"github.com/obolnetwork/charon/eth2util"
+	"github.com/obolnetwork/charon/eth2util/keystore"
+	"github.com/obolnetwork/charon/tbls"
 
 	"verif/harness/hx"
 )
@@ -34,7 +40,132 @@ type TamperCase struct {
 type TamperResult struct {
 	Shape    Shape        `json:"shape"`
 	Cases    []TamperCase `json:"cases"`
+	Folders  []FolderCase `json:"folder_sets"`
 	Failures []string     `json:"failures"`
+}
+
+// FolderCase is one input directory for combine built from (possibly duplicated, arbitrarily named)
+// copies of the node folders of a valid cluster.
+type FolderCase struct {
+	Folders  []string `json:"folders"` // "<folder name>=node<i>", in the directory (name) order combine reads them
+	Distinct int      `json:"distinct_shares"`
+	Expect   string   `json:"expected"` // recovers | fails  (recovers iff at least threshold DISTINCT shares are present)
+	Got      string   `json:"got"`
+}
+
+type folder struct {
+	name string
+	node int
+}
+
+// folderSets lists directory layouts with duplicated node folders, more than t folders, exactly t distinct
+// shares plus duplicates, fewer than t distinct shares hidden behind duplicates, and names whose sorted
+// order is not the node order.
+func folderSets(n, th int) [][]folder {
+	nm := func(i int) string { return fmt.Sprintf("node%d", i) }
+	var sets [][]folder
+	add := func(fs ...folder) { sets = append(sets, fs) }
+	distinct := func(from, k int) []folder { // k distinct nodes starting at `from`
+		var fs []folder
+		for i := 0; i < k; i++ {
+			fs = append(fs, folder{nm((from + i) % n), (from + i) % n})
+		}
+		return fs
+	}
+	// exactly t distinct, one of them twice; the duplicate sorts right after its original (first, middle, last)
+	for _, dupAt := range []int{0, th / 2, th - 1} {
+		fs := distinct(0, th)
+		fs = append(fs, folder{nm(fs[dupAt].node) + "-backup", fs[dupAt].node})
+		add(fs...)
+	}
+	// the duplicate sorts before everything / after everything
+	fs := distinct(n-th, th)
+	add(append([]folder{{"0-copy-of-" + nm(fs[0].node), fs[0].node}}, fs...)...)
+	add(append(distinct(0, th), folder{"zz-copy", th - 1})...)
+	// a share three times among exactly t distinct ones
+	fs = distinct(0, th)
+	add(append(fs, folder{nm(0) + "-a", 0}, folder{nm(0) + "-b", 0})...)
+	// all n folders plus duplicates of two of them
+	add(append(distinct(0, n), folder{nm(1) + "-backup", 1}, folder{"aa-" + nm(n-1), n - 1})...)
+	// names whose sorted order is the reverse of the node order, with a duplicate
+	var rev []folder
+	for i := 0; i < th; i++ {
+		rev = append(rev, folder{fmt.Sprintf("%c-dir", 'z'-i), i})
+	}
+	add(append(rev, folder{"m-dir", 0})...)
+	// FEWER than t distinct shares although at least t folders: must fail
+	if th >= 2 {
+		fs = distinct(0, th-1)
+		add(append(fs, folder{nm(0) + "-backup", 0})...)
+		add(append(fs, folder{nm(0) + "-backup", 0}, folder{nm(th-2) + "-backup", th - 2}, folder{"zz", 0})...)
+	}
+	return sets
+}
+
+func runFolderSets(t *testing.T, dirA string, s Shape, lockA []byte, res *TamperResult) {
+	t.Helper()
+	failf := func(format string, a ...any) { res.Failures = append(res.Failures, fmt.Sprintf(format, a...)) }
+	var lock cluster.Lock
+	if err := json.Unmarshal(lockA, &lock); err != nil {
+		failf("lock does not decode: %v", err)
+		return
+	}
+	for _, set := range folderSets(s.Nodes, lock.Threshold) {
+		if overBudget("the combine folder campaign") {
+			return
+		}
+		in := t.TempDir()
+		seen := map[int]bool{}
+		fc := FolderCase{}
+		sorted := append([]folder(nil), set...)
+		sort.Slice(sorted, func(i, j int) bool { return sorted[i].name < sorted[j].name })
+		for _, f := range sorted {
+			if err := copyNode(filepath.Join(dirA, fmt.Sprintf("node%d", f.node)), filepath.Join(in, f.name)); err != nil {
+				t.Fatal(err)
+			}
+			seen[f.node] = true
+			fc.Folders = append(fc.Folders, fmt.Sprintf("%s=node%d", f.name, f.node))
+		}
+		fc.Distinct = len(seen)
+		fc.Expect = "fails"
+		if fc.Distinct >= lock.Threshold {
+			fc.Expect = "recovers"
+		}
+		outDir := filepath.Join(t.TempDir(), "out")
+		var err error
+		fin, p := withTimeout(90*time.Second, fmt.Sprintf("combine of folders %v", fc.Folders), func() {
+			err = combine.Combine(context.Background(), in, outDir, true, false, "", eth2util.Network{}, combine.WithInsecureKeysForT(t))
+		})
+		switch {
+		case !fin:
+			fc.Got = "stalled"
+		case p != nil:
+			fc.Got = fmt.Sprintf("panicked: %v", p)
+		case err != nil:
+			fc.Got = "fails: " + shortErr(err)
+		default:
+			fc.Got = "recovers"
+			kf, e := keystore.LoadFilesUnordered(outDir)
+			var keys []tbls.PrivateKey
+			if e == nil {
+				keys, e = kf.SequencedKeys()
+			}
+			if e != nil || len(keys) != len(lock.Validators) {
+				fc.Got = fmt.Sprintf("succeeded but wrote %d keys (%v)", len(keys), e)
+			} else {
+				for j, sec := range keys {
+					pk, e := tbls.SecretToPublicKey(sec)
+					if e != nil || !bytes.Equal(pk[:], lock.Validators[j].PubKey) {
+						fc.Got = fmt.Sprintf("succeeded but key %d is not the secret of the lock's validator key", j)
+					}
+				}
+			}
+		}
+		res.Folders = append(res.Folders, fc)
+		if !strings.HasPrefix(fc.Got, fc.Expect) {
+			failf("combine of folders [%s] (%d distinct shares, threshold %d) should %s but %s", strings.Join(fc.Folders, " "), fc.Distinct, lock.Threshold, map[string]string{"recovers": "recover the validator keys", "fails": "fail"}[fc.Expect], fc.Got)
+		}
+	}
 }
 
 func flipHexAt(s string, i int) string {
@@ -201,6 +332,8 @@ func tamperShape(t *testing.T, bin string, s Shape) TamperResult {
 			res.Cases = append(res.Cases, c)
 		}
 	}
+	// duplicated / renamed / surplus node folders
+	runFolderSets(t, dirA, s, lockA, &res)
 	// the dual: one node directory (lock and key shares) of a different cluster of the same shape
 	for _, pos := range positions {
 		c := TamperCase{Alteration: "foreign:node-directory-of-another-cluster", Position: pos, AloneClass: "ok (valid lock of another cluster)"}
